@@ -70,6 +70,11 @@ CHECKS = {
    text="Generated-input search: 7 recursive templates (paren / list / optional nests, right recursion, two mutually recursive definitions, recursion under lookahead and behind a partially matching alternative) x every string over {( ) x ,} up to length 5 (quick) / 7 (thorough) plus derived sentences nested to every depth 0..9 / 0..12 with one deletion or insertion at every position; 300k / 4M random grammars with 1..2 guarded recursive definitions; each compared with the reference (acceptance, output, extents), with its own unrolling to depth len+1, and across three build styles and dropped-original handles. Depth ladder: 5 parser shapes x parse / check / to_slice x depths 10..10^5 (quick) and 3*10^5, 10^6 (thorough), balanced and truncated, each in a child process that must exit normally with the right depth. define-twice: 6 histories. Exploration within these bounds.",
    note="Trusted: reference PEG evaluator for part (1); unrolling and style comparisons need no reference. 'Any depth' is sampled on a ladder up to 10^6 (thorough), not shown for all depths. Exponentially backtracking cases (> 8000 reference evaluations) are skipped and counted.",
    design="DESIGN.md section 4, C12"),
+ "C19": dict(
+   technique="property-based testing with a drop-tracking output type and a drop-tracking token type (per-thread ledger of live ids, double-drop detector): invariant checks after every generated parse and check -- live ids == ids reachable from the output while the result is alive, nothing alive after it is dropped, the caller's tokens untouched; exhaustive templates x short strings + proptest-driven random tier",
+   text="Generated-input search: 85 templates (group arrays of 1..4 and tuple groups alone / under choice / or_not, collect_exactly over repeated / separated_by with every bounds shape, into_iter() into fixed-size arrays with too few / exact / too many items, folds, recovery, validate + filter, and_is / rewind) x every string over {a,b,c} up to length 6 (quick) / 8 (thorough), rotating over &str, &[TrackedTok] and Stream<TrackedTok>, plus 400k / 5M random C01/C02-class grammars with tracked-value mappers at random nodes; parse and check; after each run the ledger must balance exactly (no leak, no double drop, tokens neither lost nor duplicated). Exploration within these bounds.",
+   note="No reference semantics involved. F1 (group([..;N]) leaked its initialised prefix) was found by this check and fixed in /repo (6cc87d9). The thorough tier's ASan fuzz build is not part of this check (see DESIGN.md, tooling limits).",
+   design="DESIGN.md section 4, C19"),
 }
 
 NOT_YET = {}
